@@ -37,11 +37,29 @@ def tier() -> str:
   return t if t in ('quick', 'thorough') else 'quick'
 
 
+def _adopt_replay_settings():
+  """--replay FILE re-runs the check with the seed and tier the case was found with."""
+  path = os.environ.get('VERIF_REPLAY')
+  if path:
+    try:
+      with open(path) as f:
+        r = json.load(f)
+      if 'seed' in r:
+        os.environ['VERIF_SEED'] = str(r['seed'])
+      if 'tier' in r:
+        os.environ['VERIF_TIER'] = str(r['tier'])
+    except (OSError, ValueError) as e:
+      raise MachineryError(f'cannot read replay file {path}: {e}')
+
+
 def seed() -> int:
   try:
     return int(os.environ.get('VERIF_SEED', '0'))
   except ValueError:
     return 0
+
+
+_adopt_replay_settings()
 
 
 def quiet_logging():
@@ -327,7 +345,29 @@ class Verdict:
     if len(self.coverage['samples']) < cap:
       self.coverage['samples'].append(s)
 
+  def _finish_replay(self, path) -> int:
+    """--replay FILE: the (deterministic) check was re-run; report whether the recorded case recurs.
+
+    A replay never rewrites the evidence file.  Exit 1 with the VIOLATION line iff a violation with the
+    recorded feature fingerprint is reproduced on the current tree, else exit 0.
+    """
+    with open(path) as f:
+      want = json.load(f)
+    wkey = json.dumps(want.get('features'), sort_keys=True, default=str)
+    print('REPLAY case:', json.dumps(want.get('case'), default=str)[:2000])
+    for v in self.violations:
+      if v is not None and json.dumps(v['features'], sort_keys=True, default=str) == wkey:
+        print(f'VIOLATION property={self.prop} replay={path}')
+        print('  features:', wkey[:600])
+        print('  now:', json.dumps(v['case'], default=str)[:2000])
+        return 1
+    print(f'[{self.prop}] replay: the recorded violation does not recur on the current tree '
+          f'(features {wkey[:300]})')
+    return 0
+
   def finish(self) -> int:
+    if os.environ.get('VERIF_REPLAY'):
+      return self._finish_replay(os.environ['VERIF_REPLAY'])
     os.makedirs(REPLAYS, exist_ok=True)
     nviol = len(self.violations)
     self.kf.print_lines(self.prop)
@@ -348,7 +388,7 @@ class Verdict:
       h = hashlib.sha1(json.dumps(v, sort_keys=True, default=str).encode()).hexdigest()[:12]
       p = os.path.join(REPLAYS, f'{self.prop}-{h}.json')
       with open(p, 'w') as f:
-        json.dump({'property': self.prop, **v}, f, indent=1, default=str)
+        json.dump({'property': self.prop, 'seed': seed(), 'tier': tier(), **v}, f, indent=1, default=str)
       replay_paths.append(p)
       print(f'VIOLATION property={self.prop} replay={p}')
       print('  features:', json.dumps(v['features'], sort_keys=True, default=str)[:600])
